@@ -52,7 +52,7 @@ def _refspec(unknown_weight):
   pair = lambda kind: st.tuples(st.just(kind), st.integers(0, 5)).map(list)
   known = weighted((5, pair('tmp')), (2, pair('pos')), (1, st.just(['zero'])))
   if unknown_weight:
-    return weighted((unknown_weight, known), (1, pair('unk')))
+    return weighted((2 * unknown_weight, known), (1, pair('unk')), (1, pair('fwd')))
   return known
 
 
@@ -81,7 +81,7 @@ def _bundle(uw, rw):
   first = st.fixed_dictionaries({'k': st.just('add'), 't': t, 'single': st.booleans(),
                                  'rows': st.lists(st.fixed_dictionaries({'id': negid, 'v': vals}), min_size=1, max_size=3)})
   action = weighted((3, add), (2, upd), (1, rem))
-  rest = st.lists(action, min_size=1, max_size=5)
+  rest = weighted((1, st.lists(action, min_size=1, max_size=2)), (2, st.lists(action, min_size=3, max_size=5)))
   # two thirds of the bundles open with an add that creates temp ids, so that later actions have something to use
   return weighted((2, st.tuples(first, rest).map(lambda p: [p[0]] + p[1])), (1, st.lists(action, min_size=2, max_size=6)))
 
@@ -103,7 +103,7 @@ def _int(x, d=0):
 
 
 def _spec(x):
-  if isinstance(x, list) and x and x[0] in ('tmp', 'pos', 'unk', 'zero'):
+  if isinstance(x, list) and x and x[0] in ('tmp', 'pos', 'unk', 'fwd', 'zero'):
     return x[0], abs(_int(x[1])) if len(x) > 1 else 0
   return 'zero', 0
 
@@ -149,6 +149,21 @@ class Abstract(object):
     return v
 
 
+def add_ids(a):
+  """Normalised id list of an abstract add action (None or a negative id per row, negatives distinct)."""
+  rows = [r for r in (a.get('rows') or [])[:4] if isinstance(r, dict)]
+  if a.get('single'):
+    rows = rows[:1]
+  ids = []
+  for r in rows:
+    i = r.get('id')
+    i = (-(abs(_int(i)) % 5) or None) if i is not None else None
+    if i is not None and i in ids:
+      i = None
+    ids.append(i)
+  return rows, ids
+
+
 def resolve_bundle(case, n):
   ab = Abstract(n)
   uas = []
@@ -172,6 +187,15 @@ def resolve_bundle(case, n):
       return v
     if kind == 'pos':
       return ab.initial[tgt][arg % len(ab.initial[tgt])] if ab.initial[tgt] else 0
+    if kind == 'fwd':
+      # an id that only a LATER add of the bundle creates in the target table (else: an unknown id)
+      later = [i for (aj, tj, ids) in future if aj > cur[0] and tj == tgt for i in ids
+               if i is not None and i not in ab.known[tgt]]
+      kind = 'unk'
+      if later:
+        v = later[arg % len(later)]
+        unknown_refs.append((len(uas), tgt, v))
+        return v
     if kind == 'unk':
       v = ab.unknown_id(tgt, arg)
       unknown_refs.append((len(uas), tgt, v))
@@ -220,25 +244,19 @@ def resolve_bundle(case, n):
     return None, False
 
   bundle = [a for a in (case.get('bundle') or []) if isinstance(a, dict)][:8]
+  future = [(aj, abs(_int(a.get('t'))) % 2, add_ids(a)[1]) for aj, a in enumerate(bundle) if a.get('k') == 'add']
+  cur = [0]
   for ai, a in enumerate(bundle):
+    cur[0] = ai
     ti = abs(_int(a.get('t'))) % 2
     t = TABLES[ti]
     k = a.get('k')
     rows = [r for r in (a.get('rows') or [])][:4]
     single = bool(a.get('single'))
     if k == 'add':
-      rows = [r for r in rows if isinstance(r, dict)]
-      if single:
-        rows = rows[:1]
+      rows, ids = add_ids(a)
       if not rows:
         continue
-      ids = []
-      for r in rows:
-        i = r.get('id')
-        i = -(abs(_int(i)) % 5) or None if i is not None else None
-        if i is not None and i in ids:
-          i = None
-        ids.append(i)
       here_new = set()
       for i in ids:
         if i is not None:
